@@ -11,7 +11,7 @@ with `parseDot` and compared with the node array `A`:
   * exactly the edges `p → high(p)` solid and `p → low(p)` dotted, except — with zero-pruning — those into 0;
   * the graph read back evaluates like `A` on all valuations (n ≤ 12; sampled above), a missing edge meaning 0
     (only for arrays that are valid Bdds).
-Labels that would need escaping (`"`, `\`, line feed) make the text unreadable for any `.dot` reader; the
+Labels that would need escaping (`"`, `\`, LF, CR) make the text unreadable for any `.dot` reader; the
 property is not claimed for them (they are compared with the model only, tag `unsafe-label`).
 -/
 namespace B.Drive.C20
@@ -19,7 +19,7 @@ open B B.Drive B.Dot B.Drive.Hex
 
 def maxTT : Nat := 12
 
-def safeName (s : String) : Bool := !(s.toList.any fun c => c == '"' || c == '\\' || c == '\n')
+def safeName (s : String) : Bool := !(s.toList.any fun c => c == '"' || c == '\\' || c == '\n' || c == '\r')
 
 /-- valid Bdd: terminals exact, variables below `n`, links in range, variables strictly increasing along edges -/
 def wellFormed (A : Arr) : Bool :=
@@ -68,8 +68,75 @@ def checkDot (A : Arr) (names : List String) (pruned : Bool) (text : String) : O
         (if (List.range (2 ^ n)).all fun i => ok (valOfIndex n i) then none else some "evaluation")
       else if (samples n).all ok then none else some "evaluation"
 
+/-- `i.g3.*7` (see harness): `*K` = as many `give K` as `len` bytes can need -/
+def parseScript? (s : String) (len : Nat) : Option (List Serial.Ev) :=
+  if s == "~" then some [] else
+  (s.splitOn ".").foldlM (init := []) fun acc tok =>
+    if tok == "i" then some (acc ++ [Serial.Ev.interrupted])
+    else if tok == "e" then some (acc ++ [Serial.Ev.fail])
+    else match tok.toList with
+      | '*' :: k => (String.ofList k).toNat?.map fun k => acc ++ List.replicate (len + 2) (Serial.Ev.give k)
+      | 'g' :: k => (String.ofList k).toNat?.map fun k => acc ++ [Serial.Ev.give k]
+      | _ => none
+
+def isFault : Serial.Ev → Bool
+  | .fail => true
+  | .give 0 => true
+  | _ => false
+
+/-- the first fault of the script is reached whatever pieces are written: the gives before it cannot cover `len` bytes -/
+def faultEarly (script : List Serial.Ev) (len : Nat) : Bool :=
+  let pre := script.takeWhile (fun e => !isFault e)
+  pre.length < script.length &&
+    (pre.foldl (fun a e => match e with | .give k => a + k | _ => a) 0) < len
+
+def hexOfBytes (bs : List UInt8) : String :=
+  String.ofList ('x' :: bs.flatMap fun b => [hexDigit (b.toNat / 16), hexDigit (b.toNat % 16)])
+
+def dotVerdict (A : Arr) (names : List String) (pruned : Bool) (text : String) : Option String :=
+  let safe := names.all safeName
+  let claimed := names.length == numVars A && wellFormed A
+  if text == "panic" then (if claimed then some "outcome:panic" else none)
+  else if !safe then none
+  else match decText? 'x' text with
+    | none => some "not-utf8"
+    | some t => checkDot A names pruned t
+
 def handle (key : String) (ins obs : List String) : Verdict :=
   match key, ins, obs with
+  | "C20.write", [bdd, names, pruned, script], [text, status, got] =>
+    match parseArr? bdd, decNames? names with
+    | some A, some names =>
+      let pruned := pruned == "1"
+      let mt := toDotString A names pruned
+      let len := match mt with | .ok t => (textBytes t).length | _ => 0
+      match parseScript? script len with
+      | none => Verdict.bad "script"
+      | some sc =>
+        let model := match writeDotIO A names pruned sc, mt with
+          | .ok (ok, out), .ok t =>
+            encText 'x' t ++ (if ok then " ok =" else " err " ++ hexOfBytes out)
+          | _, _ => "panic panic ~"
+        -- the partial output under an error depends on how `format_args!` cuts the text; compared: text, status, and
+        -- the complete output when the call returned Ok
+        let agree := match writeDotIO A names pruned sc, mt with
+          | .ok (ok, _), .ok t => text == encText 'x' t && status == (if ok then "ok" else "err") && (!ok || got == "=")
+          | _, _ => text == "panic"
+        let hasFault := sc.any isFault
+        let fail := (dotVerdict A names pruned text) <|>
+          (if text == "panic" then none
+           else if status == "ok" then
+             (if got != "=" then some "sink-bytes-differ-from-to_dot_string"
+              else if faultEarly sc ((text.length - 1) / 2) then some "hard-error-swallowed" else none)
+           else if status == "err" then
+             (if !hasFault then some "spurious-error"
+              else if !((got.drop 1).toString.isPrefixOf (text.drop 1).toString) && got != "=" then some "sink-not-a-prefix" else none)
+           else some ("outcome:" ++ status))
+        { agree, model := if model.length > 300 then (model.take 300).toString ++ "…" else model, fail,
+          nontrivial := A.size > 2 && text != "panic",
+          tags := ["write", status, if hasFault then "fault" else if sc.isEmpty then "whole" else "chunked",
+            if len > 30000 then "big" else "small"] }
+    | _, _ => Verdict.bad "args"
   | "C20.dot", [bdd, names, pruned], [text, written] =>
     match parseArr? bdd, decNames? names with
     | some A, some names =>
@@ -78,14 +145,9 @@ def handle (key : String) (ins obs : List String) : Verdict :=
         | .ok t => encText 'x' t
         | _ => "panic"
       let safe := names.all safeName
-      let claimed := names.length == numVars A && wellFormed A
       let fail :=
-        if text == "panic" then (if claimed then some "outcome:panic" else none)
-        else if written != "=" then some "write_as_dot_string-differs"
-        else if !safe then none
-        else match decText? 'x' text with
-          | none => some "not-utf8"
-          | some t => checkDot A names pruned t
+        if text != "panic" && written != "=" then some "write_as_dot_string-differs"
+        else dotVerdict A names pruned text
       { agree := model == text, model := if model.length > 300 then (model.take 300).toString ++ "…" else model, fail,
         nontrivial := A.size > 2 && text != "panic",
         tags := [if pruned then "pruned" else "full",
